@@ -231,6 +231,7 @@ func C06(c *vh.Ctx) {
 		c.LoadReplay(&probe)
 		if probe.Script != "" {
 			c06Retry(c) // the whole (small) retry family
+			c06Typed(c)
 			return
 		}
 		if probe.Limit != nil {
@@ -248,7 +249,7 @@ func C06(c *vh.Ctx) {
 		}
 		return
 	}
-	c.Rule("the C04 step space (quick vocabulary; in the quick tier every twenty-ninth two-branch list) and the C05 walk space (quick templates; in the quick tier every sixth spec, sequences up to the bound, limits {0,2,100}, breakpoints; plus message slices with nil entries) re-executed with deep snapshots (reflect, incl. unexported fields) of state, messages, spec, control and props before/after each call, map-identity checks on every returned state, and two identical calls compared (ECMAScript nodes also in a specification that was never compiled and in one whose sources arrived after Compile); plus a retry family: ECMAScript actions and guards that try to remember something outside their result (globals, built-in prototypes, members of the built-in objects, the properties object, also before failing) are walked several times with equal inputs, for one machine and for many machines in turn, with nil / empty / populated step properties - every attempt must give the result of the first; non-trivial = the step/walk did something other than stay / finish normally.")
+	c.Rule("the C04 step space (quick vocabulary; in the quick tier every twenty-ninth two-branch list) and the C05 walk space (quick templates; in the quick tier every sixth spec, sequences up to the bound, limits {0,2,100}, breakpoints; plus message slices with nil entries) re-executed with deep snapshots (reflect, incl. unexported fields) of state, messages, spec, control and props before/after each call, map-identity checks on every returned state, and two identical calls compared (ECMAScript nodes also in a specification that was never compiled and in one whose sources arrived after Compile); plus a retry family: ECMAScript actions and guards that try to remember something outside their result (globals, built-in prototypes, members of the built-in objects, the properties object, also before failing) are walked several times with equal inputs, for one machine and for many machines in turn, with nil / empty / populated step properties - every attempt must give the result of the first; plus states and messages holding collections of Go types a JSON decoder does not produce ([]string, map[string]string, []int, slices of maps, a pointer to a struct), with nothing else structured beside them, handed to action and guard scripts that write into them; non-trivial = the step/walk did something other than stay / finish normally.")
 	forEachStepCase(c, false, func(spec *core.Spec, cs stepCase, li int) {
 		if c.Quick() && len(cs.Spec.Nodes["n0"].Branches) == 2 && li%29 != 0 {
 			return // quick: no / single-branch lists in full, every twenty-ninth two-branch list
@@ -274,6 +275,9 @@ func C06(c *vh.Ctx) {
 	})
 	if c.Shard == 0 {
 		c06Retry(c)
+	}
+	if c.Shard == 1 || c.Shards == 1 {
+		c06Typed(c)
 	}
 	maxLen := c.Pick(2, 3)
 	all := seqs(maxLen)
@@ -319,6 +323,89 @@ var c06Rememberers = []string{
 	`var before = _.out.calls || 0; _.out.calls = before + 1; _.out({call: before}); return {before: before};`,
 	`var n = (globalThis.seen2 || 0) + 1; globalThis.seen2 = n; if (n == 1) { throw "first attempt fails"; } return {n: n};`,
 	`var old = JSON.stringify; var n = (JSON.wrapped || 0); JSON.stringify = function(x) { return old(x); }; JSON.wrapped = n + 1; return {n: n};`,
+}
+
+// c06Typed: states and messages built by a Go host - collections of Go types other than the ones a JSON decoder
+// produces ([]string, map[string]string, []int, a slice of maps, a pointer to a struct), with nothing else structured
+// beside them - handed to scripts that write into what they are given.
+func c06Typed(c *vh.Ctx) {
+	type rec struct {
+		Name string   `json:"name"`
+		Tags []string `json:"tags"`
+	}
+	mk := map[string]func() interface{}{
+		"[]string":          func() interface{} { return []string{"homer", "marge"} },
+		"map[string]string": func() interface{} { return map[string]string{"0": "homer"} },
+		"[]int":             func() interface{} { return []int{1, 2} },
+		"[]float64":         func() interface{} { return []float64{1, 2} },
+		"[]map":             func() interface{} { return []map[string]interface{}{{"0": "homer"}} },
+		"[][]string":        func() interface{} { return [][]string{{"homer"}} },
+		"*struct":           func() interface{} { return &rec{Name: "homer", Tags: []string{"x"}} },
+		"map[string][]int":  func() interface{} { return map[string][]int{"0": {1}} },
+	}
+	scripts := []string{
+		`var t = _.bindings["?to"]; if (t) { t[0] = "changed"; if (t[0] && typeof t[0] == "object") { t[0][0] = "changed"; } t.name = "changed"; if (t.tags) { t.tags[0] = "changed"; } } return {done: true};`,
+		`var t = _.bindings.held; if (t) { t[0] = "changed"; if (t[0] && typeof t[0] == "object") { t[0][0] = "changed"; } t.name = "changed"; if (t.tags) { t.tags[0] = "changed"; } } return {done: true};`,
+	}
+	for kind, f := range mk {
+		for si, src := range scripts {
+			for _, asGuard := range []bool{false, true} {
+				raw := prog(false, Op{K: "raw", A: src})
+				var as *rstep.ASpec
+				if asGuard {
+					as = &rstep.ASpec{Nodes: map[string]*rstep.ANode{
+						"n0": {Type: "message", Branches: []rstep.ABranch{{Pattern: M{"to": "?to"}, Guard: raw, Target: "n1"}}}, "n1": {Type: "message"}}}
+				} else {
+					as = &rstep.ASpec{Nodes: map[string]*rstep.ANode{
+						"n0": {Type: "message", Branches: []rstep.ABranch{{Pattern: M{"to": "?to"}, Target: "n1"}}},
+						"n1": {Action: raw, Branches: []rstep.ABranch{{Target: "n0"}}}}}
+				}
+				spec, err := as.Build()
+				if err != nil {
+					c.Violation("C06/compile-failed", err.Error(), as)
+					continue
+				}
+				c.Eval()
+				c.Nontrivial()
+				run := func() (string, []string) {
+					st := &core.State{NodeName: "n0", Bs: match.Bindings{"held": f(), "who": "alice"}}
+					pend := []interface{}{M{"to": f()}}
+					b := [2]string{snap.Of(st), snap.Of(pend)}
+					var w *core.Walked
+					if p, msg, where := vh.Trap(func() { w, _ = spec.Walk(context.Background(), st, pend, nil, nil) }); p {
+						return "PANIC " + where + " " + msg, nil
+					}
+					var bad []string
+					if snap.Of(st) != b[0] {
+						bad = append(bad, "state-modified")
+					}
+					if snap.Of(pend) != b[1] {
+						bad = append(bad, "messages-modified")
+					}
+					key := ""
+					if w != nil {
+						for _, s := range w.Strides {
+							key += rstep.Observe(s, nil).Key() + ";"
+						}
+					}
+					return key, bad
+				}
+				k1, bad := run()
+				k2, _ := run()
+				what := "action"
+				if asGuard {
+					what = "guard"
+				}
+				cs := map[string]interface{}{"family": "typed", "kind": kind, "script": src, "as_guard": asGuard}
+				for _, bd := range bad {
+					c.Violation(fmt.Sprintf("C06/walk/%s/typed-%s/%s-script-%d", bd, kind, what, si), "a "+what+" script that writes into a value of Go type "+kind+" (from the state / from the message) changed the caller's "+bd, cs)
+				}
+				if k1 != k2 {
+					c.Violation(fmt.Sprintf("C06/walk/retry-differs/typed-%s/%s-script-%d", kind, what, si), "two identical walks differ:\n"+k1+"\n"+k2, cs)
+				}
+			}
+		}
+	}
 }
 
 // c06Retry: a host may discard a result and retry, or process the same message against many machines,
